@@ -20,6 +20,8 @@ pub trait Src {
     fn cover(&mut self, c: bool, name: &'static str);
     /// the property assertion
     fn check(&mut self, c: bool, msg: &'static str);
+    /// classification of the current input (used to key known findings); native only
+    fn tag(&mut self, name: &'static str);
 }
 
 #[cfg(kani)]
@@ -61,6 +63,7 @@ impl Src for KSrc {
     fn check(&mut self, c: bool, msg: &'static str) {
         assert!(c, "{}", msg)
     }
+    fn tag(&mut self, _name: &'static str) {}
 }
 
 /// reachability witness: kani::cover! under Kani (own location per call site), no-op natively
@@ -152,6 +155,9 @@ impl Src for RSrc {
             self.covers.push(name);
         }
     }
+    fn tag(&mut self, name: &'static str) {
+        println!("VERIF-TAG {}", name);
+    }
     fn check(&mut self, c: bool, msg: &'static str) {
         if !c {
             self.failed.push(msg);
@@ -200,3 +206,9 @@ pub fn bt_stub() -> std::backtrace::Backtrace {
 pub fn fmt_stub(_args: std::fmt::Arguments<'_>) -> String {
     String::new()
 }
+
+/// Dropping an anyhow::Error runs the drop glue of its (disabled) Backtrace through a boxed vtable;
+/// CBMC cannot see the variant through the heap and unrolls the frame/symbol vectors (measured: the
+/// whole time budget of the reader harnesses). Errors are leaked instead: no property observes them.
+#[cfg(kani)]
+pub fn anyhow_drop_stub(_e: &mut anyhow::Error) {}
